@@ -158,6 +158,7 @@ def judge(exp: dict, stages: dict[str, list[dict]]) -> tuple[str, list[tuple[str
 def sig_of(prog: dict, clause: str, exp: dict) -> dict:
     faults = "+".join(f["f"] for f in prog.get("gen", {}).get("faults", []))
     return {"clause": clause, "forward_recv": dp.has_forward_recv(prog),
+            "nested_holder": dp.has_nested_holder(prog),
             "source": prog["id"].split("/")[0], "faults": faults,
             "why": "+".join(exp["why"])}
 
